@@ -73,7 +73,12 @@ class ProjectSettings:
 
     @sim_end.setter
     def sim_end(self, sim_end):
-        self._sim_end = self.sim_start + np.ceil((sim_end - self.sim_start) / self.sim_dt) * self.sim_dt
+        n_steps = (sim_end - self.sim_start) / self.sim_dt
+        if np.isclose(n_steps, np.round(n_steps), rtol=0, atol=1e-9):
+            n_steps = np.round(n_steps)  # A whole number of steps up to floating point error e.g. (2035-2000)/0.1 = 350.00000000000006 must not be rounded up to 351
+        else:
+            n_steps = np.ceil(n_steps)
+        self._sim_end = self.sim_start + n_steps * self.sim_dt
         if sim_end != self._sim_end:
             logger.info(f"Changing sim end from {sim_end} to {self._sim_end} ({(self._sim_end - self._sim_start) / self._sim_dt:.0f} timesteps)")
 
@@ -95,7 +100,7 @@ class ProjectSettings:
 
         """
 
-        return np.linspace(self.sim_start, self.sim_end, int((self.sim_end - self.sim_start) / self.sim_dt) + 1)
+        return np.linspace(self.sim_start, self.sim_end, int(np.round((self.sim_end - self.sim_start) / self.sim_dt)) + 1)  # nb. round, because e.g. (2035.1-2000)/0.3 = 116.99999999999999
 
     def update_time_vector(self, start: float = None, end: float = None, dt: float = None) -> None:
         """
